@@ -5,7 +5,9 @@ EXTENDS PipelineObs
 (* parse or compile diagnostics were printed; ran = the probe statement at the  *)
 (* start of the program produced its output.                                    *)
 CONSTANT NChunks
-Recs == ndJsonDeserialize(IOEnv.TRACE)
+\* parsed once at start-up into a TLC register (TLC re-evaluates a definition that reads a file on every reference)
+ASSUME TLCSet(7, ndJsonDeserialize(IOEnv.TRACE))
+Recs == TLCGet(7)
 Verdict(rec) == [id |-> rec.id,
                  v |-> IF rec.how = "exit" /\ <<rec.diag, rec.ran>> \in TerminalObs THEN "ok" ELSE "bad"]
 VARIABLE pc
